@@ -515,7 +515,9 @@ def standard_check(cfg):
                       {"what": "the property fails on the implementation for this concrete input", "message": f[:4000],
                        "harness_args": s.args, "case": cid, "case_lines": case_lines[:400],
                        "replay_cmd": "%s %s   # then see case %s" % (harness, " ".join(s.args), cid)}, True, signature=sig)
-    if not all_fails and broken:
+    # a broken theorem / correspondence is reported unless a concrete violation (not suppressed as a known finding) explains it
+    concrete_reported = any(not nofail for _, nofail in chk.violations)
+    if broken and not concrete_reported:
         what = []
         if proof_broken:
             what.append({"theorems_no_longer_checked": proof_broken, "build_log_tail": info.get("build_log_tail", "")})
